@@ -1,3 +1,6 @@
+(* STATUS NOTE (third session): remarks of the form "NOT PROVED" in the comments below were written when the first theorems of this
+   file were stated; theorems added further down in this file supersede them.  The current status of the property is the row of
+   DESIGN.md section 14.4; the premises that remain are listed in DESIGN.md section 14.9. *)
 (* C02 — Congruence closure is complete: every implied equality is reported.
    The expected answer is computed, as the property's quantifier says, by a brute-force ground
    congruence closure over a finite name pool (Sem/Closure.v).  PROVED here: that closure is SOUND
